@@ -60,6 +60,8 @@ def pieces_json(ps):
     for p in ps:
         if p[0] == "text":
             s.append(p[1])
+        elif p[0] == "fk":
+            s.append("$t(%s)" % p[1])
         elif p[0] == "var":
             s.append("{{ %s%s }}" % (p[1], ", " + p[2] if p[2] else ""))
         else:
@@ -67,7 +69,7 @@ def pieces_json(ps):
     return " ".join(s)
 
 
-def gen_value(rng, count_kind, is_default, targets):
+def gen_value(rng, count_kind, is_default, targets, fk_in_plural=False):
     """count_kind: None | ('range', jsontype) | 'plural' | 'free' — keeps the count type of a key consistent across locales"""
     r = rng.random()
     if not is_default and r < 0.08:
@@ -84,7 +86,13 @@ def gen_value(rng, count_kind, is_default, targets):
         if r < 0.7:
             return ("fkcount", rng.choice(["count", "count", "n"]) if count_kind == "free" else "count")
         forms = rng.sample(["zero", "one", "two", "few", "many"], rng.choice([1, 2, 3]))
-        return ("plural", rng.choice(["cardinal", "ordinal"]), {f: gen_pieces(rng) for f in forms + ["other"]})
+        fd = {f: gen_pieces(rng) for f in forms + ["other"]}
+        if fk_in_plural and targets and rng.random() < 0.4:
+            # a foreign key inside a plural form (panicked at resolve_foreign_keys_1 before
+            # fixes/C09-foreign-key-in-plural-form.diff: the registered path `key_one` no longer exists after merging)
+            f = rng.choice(sorted(fd))
+            fd[f] = [("fk", rng.choice(targets))] + fd[f]
+        return ("plural", rng.choice(["cardinal", "ordinal"]), fd)
     ty = count_kind[1] if count_kind != "free" else rng.choice([None, "u64", "f32", "i64"])
     return ("ranges", ty, [gen_pieces(rng) for _ in range(rng.choice([1, 2]))] + [gen_pieces(rng)])
 
@@ -101,6 +109,7 @@ def gen_project(rng, conflict):
                    for l in locales}
     nk = rng.choice([6, 10, 16])
     bad = rng.randrange(nk) if conflict else -1
+    fk_in_plural = rng.random() < 0.15          # some projects use `$t(..)` inside plural forms
     for i in range(nk):
         ck = rng.choice([None, None, ("range", None), ("range", "u64"), ("range", "f32"), "plural"])
         vals = {}
@@ -108,7 +117,7 @@ def gen_project(rng, conflict):
             kind = ck
             if i == bad:
                 kind = "free"
-            vals[l] = gen_value(rng, kind, j == 0, targets)
+            vals[l] = gen_value(rng, kind, j == 0, targets, fk_in_plural)
         keys["k%d" % i] = vals
     return locales, keys
 
@@ -167,18 +176,21 @@ def fmt_id(f):
     return 0 if f in (None, "None") else 1 if str(f).lower().startswith("number") else 2
 
 
-def pv_pieces(ps, intern, rename=None):
+def pv_pieces(ps, intern, rename=None, locale_vals=None):
     items = []
     for p in ps:
         if p[0] == "text":
             items.append("(PLit LString)")
+        elif p[0] == "fk":
+            # `$t(target)` inside a longer string (only generated inside plural forms)
+            items.append("(PForeign %s)" % pv_pieces(locale_vals[p[1]][1], intern))
         elif p[0] == "var":
             nm = p[1]
             if rename and nm == "count":
                 nm = rename
             items.append("(PVar %d %d)" % (intern("var_" + nm), fmt_id(p[2])))
         else:
-            items.append("(PComp %d %s)" % (intern("comp_" + p[1]), pv_pieces(p[2], intern, rename)))
+            items.append("(PComp %d %s)" % (intern("comp_" + p[1]), pv_pieces(p[2], intern, rename, locale_vals)))
     # reduce: adjacent literals are joined, a bloc of one element is that element
     red = []
     for it in items:
@@ -214,8 +226,9 @@ def pv_value(v, locale_vals, intern):
                                                  pv_pieces(pl[2]["other"], intern, v[1]))
     if k == "plural":
         forms = [f for f in ["zero", "one", "two", "few", "many"] if f in v[2]]
-        return "(PPlural %d %s %s)" % (intern("var_count"), core.coq_list([pv_pieces(v[2][f], intern) for f in forms]),
-                                       pv_pieces(v[2]["other"], intern))
+        return "(PPlural %d %s %s)" % (intern("var_count"),
+                                       core.coq_list([pv_pieces(v[2][f], intern, None, locale_vals) for f in forms]),
+                                       pv_pieces(v[2]["other"], intern, None, locale_vals))
     if k == "ranges":
         return "(PRanges %d %d %s)" % (range_ty(v[1]), intern("var_count"), core.coq_list([pv_pieces(b, intern) for b in v[2]]))
     raise ValueError(k)
@@ -359,6 +372,10 @@ def run(ctx):
         (["en", "fr", "ja"], {"k0": {"en": ("lit", "String"), "fr": ("str", [("var", "a", None)]),
                                      "ja": ("str", [("comp", "b", [("var", "count", "number")])])}}),
         (["en", "fr", "ja"], {"k0": {"en": ("lit", "String"), "fr": ("lit", "Bool"), "ja": ("null",)}}),
+        # `$t(..)` inside plural forms (also a lone `_other`, merged by the second pass)
+        (["en", "ja"], {"t0": {"en": ("str", [("text", "hello"), ("var", "name", None)]), "ja": ("str", [("var", "name", None)])},
+                        "k0": {"en": ("plural", "cardinal", {"one": [("fk", "t0"), ("text", "item")], "other": [("var", "count", None)]}),
+                               "ja": ("plural", "cardinal", {"other": [("fk", "t0"), ("var", "count", None)]})}}),
     ]
     projects.extend(corpus)
     for i in range(n):
@@ -386,7 +403,7 @@ def run(ctx):
             continue
         if pipe == "PANIC":
             outcomes["PANIC"] += 1
-            panics.append({"project": pi, "dir": dirs[pi]})
+            panics.append({"project": pi, "locales": locales, "keys": {k: {l: v for l, v in vals.items()} for k, vals in keys.items()}})
             continue
         impl_by_key, err_key, err_term = {}, None, None
         if "ok" in pipe:
@@ -439,7 +456,10 @@ def run(ctx):
                                               "explanation": "a call with exactly the required arguments was rejected, or a call "
                                                              "omitting one / naming an unknown argument or key was accepted"})
     elif panics:
-        core.violation(ctx, "panic", {"failing_input": panics[0], "explanation": "the parse pipeline panicked on a generated project"})
+        panics.sort(key=lambda m: len(json.dumps(m["keys"])))
+        core.violation(ctx, "panic", {"failing_input": panics[0], "count": len(panics),
+                                      "explanation": "the parse pipeline panicked on a generated project (a `$t(..)` inside a plural form "
+                                                     "panics at resolve_foreign_keys_1 before fixes/C09-foreign-key-in-plural-form.diff)"})
     elif disagree or shape or unattributed or not ok:
         core.violation(ctx, "correspondence", {
             "broken": ("theorem/audit: " + "; ".join(problems)) if not ok else
@@ -485,7 +505,7 @@ def _retuple(v):
 
 
 def _pieces(v):
-    return [tuple([p[0], p[1]] + ([_pieces(p[2])] if p[0] == "comp" else list(p[2:]))) for p in v]
+    return [tuple([p[0], p[1]] + ([_pieces(p[2])] if p[0] == "comp" else list(p[2:]))) for p in v]   # text / var / comp / fk
 
 
 def _value(v):
@@ -504,6 +524,16 @@ def replay(ctx, path):
     obj = json.load(open(path))
     fi = obj.get("failing_input") or {}
     print(json.dumps({k: v for k, v in obj.items() if k != "more"}, indent=1)[:6000])
+    if "keys" in fi and "locales" in fi:                      # a whole project (pipeline panic)
+        exe = os.path.join(core.cargo_build("h_plurals"), "h_plurals")
+        keys = {k: {l: _value(v) for l, v in vals.items()} for k, vals in fi["keys"].items()}
+        d = os.path.join(ctx.work, "replay")
+        write_project(d, fi["locales"], keys)
+        rc, out, err = core.sh([exe, "parse"], input=d + "\n", timeout=120)
+        pipe = json.loads(out.splitlines()[0])["pipeline"]
+        print("IMPLEMENTATION parse pipeline:", json.dumps(pipe)[:1500])
+        print("VERDICT", "still panics" if pipe == "PANIC" else "no panic now")
+        return 1 if pipe == "PANIC" else 0
     if "values" not in fi:
         return 0
     exe = os.path.join(core.cargo_build("h_plurals"), "h_plurals")
